@@ -414,8 +414,8 @@ func describeBM(bm *bondmachine.Bondmachine, names map[int]string) string {
 		for _, op := range m.Op {
 			ops = append(ops, op.Op_get_name())
 		}
-		fmt.Fprintf(&sb, "CP %d rsize=%d R=%d N=%d M=%d L=%d O=%d wordsize=%d maxword=%d opbits=%d ops=%s rom=%s name=%s data=%d mode=%s\n", i, m.Rsize, m.R, m.N, m.M, m.L, m.O, m.WordSize, m.Max_word(), m.Opcodes_bits(),
-			strings.Join(ops, ","), strings.Join(m.Program.Slocs, ","), names[i], len(m.Data.Vars), strings.Join(m.Modes, "+"))
+		fmt.Fprintf(&sb, "CP %d rsize=%d R=%d N=%d M=%d L=%d O=%d wordsize=%d maxword=%d opbits=%d ops=%s rom=%s name=%s data=%d mode=%s vars=%s\n", i, m.Rsize, m.R, m.N, m.M, m.L, m.O, m.WordSize, m.Max_word(), m.Opcodes_bits(),
+			strings.Join(ops, ","), strings.Join(m.Program.Slocs, ","), names[i], len(m.Data.Vars), strings.Join(m.Modes, "+"), strings.Join(m.Data.Vars, ","))
 	}
 	return sb.String()
 }
